@@ -161,6 +161,13 @@ def r1_pairing(chk: Check):
     loops = [x for x in body_walk(lr.node) if isinstance(x, ast.For) and src(x.iter) == "self.locks"]
     ok = len(loops) == 1 and any(isinstance(c, ast.Call) and tail(c) == "release" for c in walk_local(loops[0])) and not any(isinstance(x, (ast.Break, ast.Return, ast.Continue)) for x in ast.walk(loops[0]))
     chk.require(ok, chk.fkey(lr, "releases every member"), "Locks._release must release every lock it holds (no early exit)", chk.loc(lr.module, lr.node))
+    # ... every member: the list is not changed while it is iterated (removing the current element makes the iterator skip the next one)
+    for lp in [x for x in body_walk(lr.node) if isinstance(x, ast.For)]:
+        it = src(lp.iter)
+        mut = [c for b in lp.body for c in walk_local(b) if isinstance(c, ast.Call) and isinstance(c.func, ast.Attribute) and src(c.func.value) == it
+               and c.func.attr in ("remove", "pop", "append", "insert", "clear", "extend")] + \
+              [d for b in lp.body for d in walk_local(b) if isinstance(d, ast.Delete) and any(isinstance(t, ast.Subscript) and src(t.value) == it for t in d.targets)]
+        chk.require(not mut, chk.fkey(lr, "list not mutated while released"), f"`{it}` is modified inside the loop that releases its members: every other lock is skipped and stays held", chk.loc(lr.module, lp))
     la = tree.func("locking", "Locks.append")
     chk.require(any(src(c) == "self.locks.append(lock)" for c in fn_calls(la.node)), chk.fkey(la, "append"), "Locks.append must record the lock", chk.loc(la.module, la.node))
     ex = tree.func("locking", "Lock.__exit__")
@@ -475,22 +482,8 @@ def _in_body(try_node, x):
     return any(x is y for st in try_node.body for y in ast.walk(st))
 
 
-def r5_wakeup_path(chk: Check):
+def event_loops_not_closed(chk: Check):
     tree = chk.tree
-    # on_deleted: gives the amount back and notifies
-    f = tree.func("tokens", "CounterToken.on_deleted")
-    g = CFG(f.node)
-    incs = [n for n in g.live if n.kind == "stmt" and isinstance(n.ast, ast.AugAssign) and src(n.ast.target) == "self.available" and isinstance(n.ast.op, ast.Add)]
-    notif = [n for n, c in g.call_nodes(lambda c: src(c) == "self.aio_notify()")]
-    chk.require(len(incs) == 1 and bool(notif), chk.fkey(f, "restores and notifies"), "on_deleted must give the deleted holding back and notify", chk.loc(f.module, f.node))
-    if incs and notif:
-        # the only condition allowed between restoring and notifying is "something is available"
-        ok = True
-        for n in notif:
-            conds = [(src(t.ast), pol) for t, pol in g.guards(n) if t.kind == "test"]
-            extra = [c for c in conds if c[0] not in ("name in self.cache", "0 < self.available")]
-            ok = ok and not extra
-        chk.require(ok, chk.fkey(f, "notify condition"), "on_deleted notifies under extra conditions", chk.loc(f.module, f.node))
     # aio_notify posts to the loop of *every* dependent ever registered (also of finished experiments): the posting call must not be able to
     # fail half-way -- nobody closes an event loop (call_soon_threadsafe raises on a closed loop), or the post is protected per dependent
     an = tree.func("tokens", "Token.aio_notify")
@@ -511,6 +504,25 @@ def r5_wakeup_path(chk: Check):
                     "the remaining waiting jobs are never re-checked and the exception escapes release()", chk.loc(ff.module, c))
     if not closers:
         chk.ok(chk.fkey(an, "no event loop is ever closed"), chk.loc(an.module, an.node))
+
+
+def r5_wakeup_path(chk: Check):
+    tree = chk.tree
+    # on_deleted: gives the amount back and notifies
+    f = tree.func("tokens", "CounterToken.on_deleted")
+    g = CFG(f.node)
+    incs = [n for n in g.live if n.kind == "stmt" and isinstance(n.ast, ast.AugAssign) and src(n.ast.target) == "self.available" and isinstance(n.ast.op, ast.Add)]
+    notif = [n for n, c in g.call_nodes(lambda c: src(c) == "self.aio_notify()")]
+    chk.require(len(incs) == 1 and bool(notif), chk.fkey(f, "restores and notifies"), "on_deleted must give the deleted holding back and notify", chk.loc(f.module, f.node))
+    if incs and notif:
+        # the only condition allowed between restoring and notifying is "something is available"
+        ok = True
+        for n in notif:
+            conds = [(src(t.ast), pol) for t, pol in g.guards(n) if t.kind == "test"]
+            extra = [c for c in conds if c[0] not in ("name in self.cache", "0 < self.available")]
+            ok = ok and not extra
+        chk.require(ok, chk.fkey(f, "notify condition"), "on_deleted notifies under extra conditions", chk.loc(f.module, f.node))
+    event_loops_not_closed(chk)
     # Dependency.check -> dependencychanged -> _readyEvent.set
     ck = tree.func("scheduler.dependencies", "Dependency.check")
     chk.require(any(tail(c) == "dependencychanged" for c in fn_calls(ck.node)), chk.fkey(ck, "check -> dependencychanged"), "Dependency.check must call the target's dependencychanged", chk.loc(ck.module, ck.node))
